@@ -228,3 +228,6 @@ Definition icode (i : instr) : list N :=
   end%N.
 Definition compile_codes (nvars : nat) (l : list BondgoCF.cstmt) : list (list N) :=
   match compile_main nvars l with Some c => map icode c | None => [] end.
+(* the premise of the jump theorem (blocks and condition code are one-step, jump-free), evaluated on every lowered program *)
+Definition lower_wf (nvars : nat) (l : list BondgoCF.cstmt) : bool :=
+  match lower_main nvars l with Some c => wfl c | None => true end.
